@@ -45,17 +45,6 @@ def runAll (acc : Stack → Option PTree) (tbl : Table) : Nat → Conf → List 
       | some (.inr t) => [t]
       | none => []
 
-/-- `ts_parser__accept` as proposed in fixes/C03-start-rule-dynamic-precedence.diff: the value the
-root's own reduce action contributed is carried over to the rebuilt root -/
-def acceptTreeCarry (st : Stack) : Option PTree :=
-  let r := PTree.leaf 0 true :: st.map (·.2)
-  let after := (r.takeWhile PTree.isExtra).reverse
-  match r.dropWhile PTree.isExtra with
-  | PTree.node sym pid dp _ kids :: beforeRev =>
-    let all := beforeRev.reverse ++ kids ++ after
-    some (PTree.node sym pid (sumDyn all + (dp - sumDyn kids)) false all)
-  | _ => none
-
 /-- keep `best` unless the candidate has the greater dynamic precedence (error-free trees) -/
 def selectBest : List PTree → Option PTree
   | [] => none
@@ -66,11 +55,6 @@ def selectBest : List PTree → Option PTree
 
 def parseAll (tbl : Table) (toks : List Nat) : List PTree :=
   runAll acceptTree tbl (fuelFor toks) { stack := [], toks := toks }
-
-/-- the same with the root carrying its own production's value (used only as the alternative the
-correspondence accepts; the judge decides which behaviour the property asks for) -/
-def parseAllCarry (tbl : Table) (toks : List Nat) : List PTree :=
-  runAll acceptTreeCarry tbl (fuelFor toks) { stack := [], toks := toks }
 
 /-! ## yield of every accepting run -/
 
